@@ -147,8 +147,10 @@ def expected_accept(req, name, value):
     return isinstance(value, np.ndarray) and value.shape == tuple(req)
 
 
-def args_shard(target):
+def args_shard(target, after=None):
     acc = core.Acc()
+    if after:
+        failed_decodes()
     req, make = _targets()[target]
     for cname, value in candidates():
         acc.n["states"] += 1
@@ -158,7 +160,7 @@ def args_shard(target):
             acc.n["nontrivial"] += 1
         res, err = _try(lambda: make(value))
         acc.n["transitions"] += 1
-        wit = {"target": target, "candidate": cname}
+        wit = {"target": target, "candidate": cname, "after": after}
         kind = cname.split(":")[0].split("(")[0] if cname.startswith("array") else cname
         if want and err is not None:
             acc.violation("required-shape-refused", f"{PROP}:{target}:required-shape-refused:{kind}", wit,
@@ -183,10 +185,28 @@ def args_shard(target):
     return acc
 
 
+def failed_decodes():
+    """Decode attempts that raise (truncated bytes of every kind): whatever they leave behind must not
+    change what the constructors accept afterwards."""
+    for t in R.WRITABLE:
+        for v in (1, 0):          # every kind ends on a decode that fails in the middle of an item
+            try:
+                sp, payload, _, _ = __import__("mc.kdriver", fromlist=["variant"]).variant(t, v)
+            except Exception:  # noqa: BLE001
+                continue
+            for cut in (max(0, len(payload) - 3), len(payload) // 2):
+                try:
+                    specs.lib_decode(t, sp["format"], payload[:cut])
+                except Exception:  # noqa: BLE001
+                    pass
+
+
 def coupled_shard(shard):
-    _, i, k = shard
+    i, k = shard[1], shard[2]
     acc = core.Acc()
     n = specs.lib()
+    if len(shard) > 3 and shard[3] == "after-failed-decode":
+        failed_decodes()
     sh30 = [s for s in shapes(2) if len(s) >= 1]
     I3, R3, T3 = np.ones(3, "<f4"), np.eye(3, dtype="<f4"), np.zeros(3, "<f4")
     for idx, (s1, s2, s3) in enumerate(itertools.product(sh30, repeat=3)):
@@ -197,7 +217,7 @@ def coupled_shard(shard):
         arrs = [np.ones(s, "<f4") * (j + 1) for j, s in enumerate((s1, s2, s3))]
         res, err = _try(lambda: n.f3.ForceTorqueTrack("t", *arrs))
         acc.n["transitions"] += 1
-        wit = {"coupled": [list(s1), list(s2), list(s3)]}
+        wit = {"coupled": [list(s1), list(s2), list(s3)], "after": shard[3] if len(shard) > 3 else None}
         same = s1 == s2 == s3
         good = same and len(s1) == 2 and s1[1] == 3
         if not good:
@@ -304,7 +324,7 @@ def events_shard(_):
 
 def _shard(shard):
     if shard[0] == "arg":
-        return args_shard(shard[1])
+        return args_shard(shard[1], shard[2] if len(shard) > 2 else None)
     if shard[0] == "coupled":
         return coupled_shard(shard)
     return events_shard(shard)
@@ -314,17 +334,18 @@ def run(tier):
     from .. import env
 
     env.setup()
-    shards = [("events",)] + [("arg", t) for t in sorted(_targets())] + [("coupled", i, 8) for i in range(8)]
+    shards = [("events",)] + [("arg", t) for t in sorted(_targets())] + [("coupled", i, 8) for i in range(8)] + \
+        [("coupled", i, 8, "after-failed-decode") for i in range(8)] + [("arg", t, "after-failed-decode") for t in sorted(_targets())]
     return core.pmap(__name__, "_shard", shards)
 
 
 def replay(w):
     if "target" in w:
-        acc = args_shard(w["target"])
+        acc = args_shard(w["target"], w.get("after"))
     elif "coupled" in w:
         acc = core.Acc()
         for i in range(8):
-            acc.merge(coupled_shard(("coupled", i, 8)))
+            acc.merge(coupled_shard(("coupled", i, 8, w["after"]) if w.get("after") else ("coupled", i, 8)))
     else:
         acc = events_shard(None)
     for v in acc.violations:
